@@ -132,19 +132,54 @@ def h_name_order(ex):
     ex.witness()
 
 
+def h_arbitration(ex, state='normal'):
+    """the comparison the arbitration code really performs: a CA holding (or announcing) an address receives an
+    address-claimed frame for it from a contender; it keeps the address iff its 64-bit NAME is the lower one"""
+    from .. import world as W
+    from ..symx import T
+    w = W.World(ex, mode='interleave')
+    n = w.add_node('S')
+    own = ex.fresh_int('own_name', 0, (1 << 63) - 1)          # not arbitrary address capable: the loser must give up
+    other = ex.fresh_int('contender_name', 0, (1 << 64) - 1)
+    ex.assume(ids.name_field(own, 'reserved_bit') == 0)
+    ex.assume(ids.name_field(other, 'reserved_bit') == 0)
+    ex.assume(own != other)
+    addr = 128 if state == 'wait_veto' else 100
+    ca = j1939.ControllerApplication(j1939.Name(value=own), addr)
+    n.ecu.add_ca(controller_application=ca)
+    ca.start(0.01)
+    w.run(until=w.now + (T('1/20') if state == 'wait_veto' else T('4/10')))
+    ST = j1939.ControllerApplication.State
+    ex.claim('arbitration.setup', ca.state == (ST.WAIT_VETO if state == 'wait_veto' else ST.NORMAL))
+    base = len(w.log)
+    w.inject(n, (6 << 26) | (0xEE << 16) | (0xFF << 8) | addr, ids.name_bytes(other))
+    w.run(until=w.now + T('1/100'))
+    yielded = ca.state == ST.CANNOT_CLAIM
+    # yields iff its own NAME is the numerically larger one
+    ex.claim('arbitration.lower_64bit_name_keeps', (own > other) if yielded else (own < other), {'yielded': yielded, 'state': state})
+    new = w.log[base:]
+    ex.claim('arbitration.one_answer', len(new) == 1)
+    if new:
+        fld = ids.id_fields(new[0]['id'])
+        ex.claim('arbitration.answer', sym_and(fld['pf'] == 0xEE, fld['sa'] == (254 if yielded else addr), sym_eq_seq(new[0]['data'], ids.name_bytes(own))))
+    ex.observe('yielded', yielded)
+    ex.witness()
+
+
 HARNESSES = [('h_id_parse', 40), ('h_id_compose', 40), ('h_pgn_fields', 40), ('h_name_value', 96),
              ('h_name_bytes', 96), ('h_name_fields', 96), ('h_name_order', 96)]
 
 
 def jobs(tier):
-    return [Job('C15', 'c15:' + h, {}, W=W, wall=120 if tier == 'quick' else 900, validate=3 if tier == 'quick' else 20, cross=(tier != 'quick')) for h, W in HARNESSES]
+    extra = [Job('C15', 'c15:h_arbitration', {'state': st_}, W=96, wall=300, validate=2, cross=(tier != 'quick')) for st_ in ('normal', 'wait_veto')]
+    return extra + [Job('C15', 'c15:' + h, {}, W=W, wall=120 if tier == 'quick' else 900, validate=3 if tier == 'quick' else 20, cross=(tier != 'quick')) for h, W in HARNESSES]
 
 
 def meta(tier):
     return {
         'bounds': ['all 2^29 identifiers (symbolic)', 'all (priority 0..7, PGN 0..2^18-1, SA 0..255) triples (symbolic)',
                    'all (DP, PF, PS) triples (symbolic)', 'all 2^64 NAME values, all 8-byte images, all in-range NAME field tuples (symbolic)',
-                   'all pairs of valid 64-bit NAMEs for the ordering (symbolic)'],
+                   'all pairs of valid 64-bit NAMEs for the ordering (symbolic)', 'the comparison performed by ControllerApplication._process_addressclaim itself (CA operational / waiting for veto, contender NAME symbolic)'],
         'outside': ['out-of-range constructor arguments (negative, too wide)'],
         'assumptions': ['builtin int in j1939.name replaced by IntShim so that int.from_bytes runs on proxies (differentially self-tested)',
                         'reference layouts jv/ref/ids.py written from SAE J1939-21 / J1939-81 field tables'],
